@@ -12,15 +12,18 @@ def key(kind, msg, case):
 
 def run(tier):
     run = runner.Run(PID, tier, 'model_checking',
-                     'for every solved return of the E3 prompt tree (quick: d<=1 on 5 bases/year; thorough: d<=1 on all bases and d<=2 on '
-                     'B0/B2): all renumberings of each multi-copy input form (<=3 copies), every wage, withholding and deductible-expense '
+                     'for every solved return of the E3 prompt tree (quick: all base returns, d<=1 on B0 (all years) and B2/B6 (2023); thorough: '
+                     'd<=1 on all bases and years, d<=2 on B0/2023): all renumberings of each multi-copy input form (<=3 copies), every wage, withholding and deductible-expense '
                      'input it read raised by each of {1, 50, 1000, 100000}; pairs in which both returns solve are compared; '
                      'states = returns, evaluations = solves')
+    allb = [b.name for b in e3.BASES]
     if tier == 'quick':
-        e3.explore_all(run, PID, 'quick', finding_key=key)
+        e3.explore_all(run, PID, 'quick', bases=allb, depth_quick=0, finding_key=key)
+        e3.explore_all(run, PID, 'quick', bases=['B0-single-wage'], depth_quick=1, finding_key=key)
+        e3.explore_all(run, PID, 'quick', bases=['B6-nc', 'B2-investor'], years=(2023,), depth_quick=1, finding_key=key)
     else:
-        e3.explore_all(run, PID, 'quick', bases=[b.name for b in e3.BASES], finding_key=key)
-        e3.explore_all(run, PID, 'thorough', bases=['B0-single-wage', 'B2-investor'], finding_key=key)
+        e3.explore_all(run, PID, 'quick', bases=allb, depth_quick=1, finding_key=key)
+        e3.explore_all(run, PID, 'thorough', bases=['B0-single-wage'], years=(2023,), finding_key=key)
     return run.finish()
 
 
